@@ -2,6 +2,7 @@ package sym
 
 import (
 	"fmt"
+	"os"
 	"sort"
 	"sync"
 	"time"
@@ -42,6 +43,7 @@ type ExploreOpts struct {
 	TimeoutMs     int
 	MaxViolations int
 	Deadline      time.Time
+	Progress      bool
 }
 
 func NewMachine(P *Program, solverName string, timeoutMs int) *Machine {
@@ -162,6 +164,22 @@ func Explore(P *Program, h *HarnessSpec, o ExploreOpts) *ExploreResult {
 			mu.Unlock()
 			cond.Broadcast()
 		}
+	}
+	if o.Progress {
+		done := make(chan struct{})
+		defer close(done)
+		go func() {
+			for {
+				select {
+				case <-done:
+					return
+				case <-time.After(10 * time.Second):
+					mu.Lock()
+					fmt.Fprintf(os.Stderr, "  .. %s: paths=%d stack=%d active=%d viol=%d inconcl=%d t=%.0fs\n", h.Name, res.Paths, len(stack), active, len(res.Violations), len(res.Inconclusive), time.Since(t0).Seconds())
+					mu.Unlock()
+				}
+			}
+		}()
 	}
 	var wg sync.WaitGroup
 	for i := 0; i < o.Workers; i++ {
